@@ -62,6 +62,14 @@ Print Assumptions c08_instances_lawful.
    a readable item") holds for the plain, binary, graph-node and document
    instances; plain, node and document have one enumerating key per id in every
    bucket. *)
+(* NOT covered: the product-quantised instance.  Its IdFromKey accepts only 'v'
+   while ReadFrom prefers 'q', so
+     Enumerable product_inst
+   fails on a bucket that holds n<id>q without n<id>v.  semadb never produces such
+   a bucket (Set always carries the full vector and WriteTo writes 'v' whenever
+   it is present), but that is an invariant of the bucket, outside the per-instance
+   laws used here; the flush / warm = cold / backend theorems do cover the product
+   instance (c08_instances_lawful), the ForEach / Count statements do not. *)
 Theorem c08_instances_enumerable :
   Enumerable plain_inst /\ Enumerable binary_inst /\ Enumerable node_inst /\
   (forall T enc dec, Enumerable (textdoc_inst T enc dec)) /\
@@ -286,9 +294,9 @@ Definition ex_ops : list (op plain_inst) :=
 Example ex_refines_hyps :
   inv plain_inst plain_spec c_empty (bk_get AL []) /\
   wf_run plain_inst AL plain_spec ex_ops c_empty [] /\
-  snd (run plain_inst AL ex_ops c_empty []) =
-    [ ObsUnit'; ObsGet' (Some vecA); ObsUnit'; ObsEach' true [(id1, vecA); (id2, vecB)]; ObsCount' 2; ObsUnit';
-      ObsUnit'; ObsGet' None; ObsMany' [vecB]; ObsCount' 1; ObsUnit'; ObsEach' true [(id2, vecB)] ].
+  map view (snd (run plain_inst AL ex_ops c_empty [])) =
+    [ VUnit; VGet (Some vecA); VUnit; VEach true [(1, vecA); (2, vecB)]; VCount 2; VUnit;
+      VUnit; VGet None; VMany [vecB]; VCount 1; VUnit; VEach true [(2, vecB)] ].
 Proof.
   split; [apply inv_empty|]. split; [apply plain_wf_run; plain_ok|vm_compute; reflexivity].
 Qed.
@@ -296,6 +304,7 @@ Qed.
 (* the same history with a warm cache, and with a fresh cache for every transaction *)
 Definition ex_history (drop : bool) : list (txn plain_inst) :=
   [ mkTxn' drop [OPut' id1 vecA; OPut' id2 vecA] TWrite;
+    mkTxn' drop [OForEach'] TRead;
     mkTxn' drop [OGet' id1; OForEach'] TRead;
     mkTxn' drop [OPut' id2 vecB; ODelete' id1] TWrite;
     mkTxn' drop [OPut' id1 vecB] TFail;
@@ -306,11 +315,15 @@ Example ex_warm_cold_hyps :
   wf_txs plain_inst AL plain_spec (ex_history false) c_empty [] /\
   wf_txs plain_inst AL plain_spec (ex_history true) c_empty [] /\
   wf_txs plain_inst AL2 plain_spec (ex_history false) c_empty [] /\
-  snd (run_txs plain_inst AL (ex_history false) c_empty []) =
-    [ [ObsUnit'; ObsUnit']; [ObsGet' (Some vecA); ObsEach' true [(id1, vecA); (id2, vecA)]]; [ObsUnit'; ObsUnit']; [ObsUnit'];
-      [ObsGet' None; ObsGet' (Some vecB); ObsCount' 1; ObsEach' true [(id2, vecB)]] ] /\
-  snd (run_txs plain_inst AL (ex_history true) c_empty []) = snd (run_txs plain_inst AL (ex_history false) c_empty []) /\
-  snd (run_txs plain_inst AL2 (ex_history false) c_empty []) = snd (run_txs plain_inst AL (ex_history false) c_empty []).
+  map (map view) (snd (run_txs plain_inst AL (ex_history false) c_empty [])) =
+    [ [VUnit; VUnit]; [VEach true [(1, vecA); (2, vecA)]]; [VGet (Some vecA); VEach true [(1, vecA); (2, vecA)]];
+      [VUnit; VUnit]; [VUnit]; [VGet None; VGet (Some vecB); VCount 1; VEach true [(2, vecB)]] ] /\
+  (* a cold ForEach visits in bucket order: equal up to permutation only *)
+  map (map view) (snd (run_txs plain_inst AL (ex_history true) c_empty [])) =
+    [ [VUnit; VUnit]; [VEach true [(2, vecA); (1, vecA)]]; [VGet (Some vecA); VEach true [(1, vecA); (2, vecA)]];
+      [VUnit; VUnit]; [VUnit]; [VGet None; VGet (Some vecB); VCount 1; VEach true [(2, vecB)]] ] /\
+  map (map view) (snd (run_txs plain_inst AL2 (ex_history false) c_empty [])) =
+    map (map view) (snd (run_txs plain_inst AL (ex_history false) c_empty [])).
 Proof.
   split; [repeat constructor|].
   split; [apply plain_wf_txs; plain_ok|].
